@@ -94,7 +94,7 @@ def run_keyfamily(prop, invs, props, tier, seed):
     # quick: the placement in which every type names a key file, plus two seeded ones
     chosen = PLACEMENTS if not quick else [("1", "1", "1", "")] + rng.sample([p for p in PLACEMENTS if p != ("1", "1", "1", "")], 2)
     depth = 2 if quick else 3
-    relevant = {"C02": ("RoundTrip", "Set", "Adopt", "Render"), "C03": ("RoundTrip", "Set", "Adopt"), "C10": ("Render", "Set"), "C06": ("Set", "Adopt")}[prop]
+    relevant = {"C02": ("RoundTrip", "Rebuild", "Set", "Adopt", "Render"), "C03": ("RoundTrip", "Rebuild", "Set", "Adopt"), "C10": ("Render", "Set"), "C06": ("Set", "Adopt")}[prop]
     tot = dict(states=0, transitions=0, cases=0, traces=0, events=0, tstates=0)
     by_op = {}
     distinct = set()
